@@ -756,6 +756,19 @@ def config_programs(dev):
         {"op": "setconfig", "maxv": 4},
         {"op": "distribute", "src": T, "col": 0, "dst": P, "dw": L([(0, 3), (1, 3), (2, 3)]), "vol": 2, "label": "two per aspirate"},
     ], wlmax=5)
+    # DiTi mode switched on and off: the wash records after each pair and the admissibility of a decontamination wash follow
+    prog("diti-toggle", [
+        dict(same, label="fixed tips"),
+        {"op": "setconfig", "diti": True},
+        dict(same, label="disposable tips", wash=3),
+        dict(same, label="disposable tips, flush", wash="flush"),
+        dict(same, label="disposable tips, reuse", wash="reuse"),
+        {"op": "emit", "fn": "decontaminate", "args": {}},
+        {"op": "emit", "fn": "wash", "args": {"scheme": {"cls": "int", "v": 2}}},
+        {"op": "setconfig", "diti": False},
+        dict(same, label="fixed tips again", wash=3),
+        {"op": "emit", "fn": "decontaminate", "args": {}},
+    ], wlmax=10)
     # the volume limits of a labware are public attributes too: tightened and widened between operations
     prog("labware-limits", [
         {"op": "dispense", "lw": P, "wells": L([(0, 1)]), "vols": S(20), "label": "fits 30"},
